@@ -15,7 +15,8 @@ Inductive sop :=
        (o_found : bool) (o_partials : list (Z * content)) (o_deleted : bool)
 | SRaw (fam : N) (o_keys : list (list N))
 | SRev (ds since limit : Z) (o_ents : list oent) (o_next : Z)   (* reverse change reader (iterator.Inverse) *)
-| SGetM (id : uri) (scope : list Z) (o_refs : list (Z * rval)).  (* merged lookup over several datasets: the merged references *)   (* raw Badger keys of one index family, in iteration order *)
+| SGetM (id : uri) (scope : list Z) (o_refs : list (Z * rval))   (* merged lookup over several datasets: the merged references *)
+        (tbl : list (Z * rval)) (o_props : list (Z * rval)).     (* and the merged properties, as item codes; tbl: value code -> (is a list, item codes) *)   (* raw Badger keys of one index family, in iteration order *)
 
 Definition tcase := list sop.
 
@@ -88,6 +89,19 @@ Definition merged_refs (parts : list (Z * content)) : list (Z * rval) :=
   | p :: ps => fold_left (fun acc q => merge_refs acc (c_refs (snd q))) ps (c_refs (snd p))
   end.
 
+(** Store.mergeInto on properties: the same shape, over the items of each value ([tbl]: value code -> is-a-list, item codes;
+    a value not in the table is a scalar whose only item is itself) *)
+Definition props_items (tbl : list (Z * rval)) (c : content) : list (Z * rval) :=
+  map (fun kv => (fst kv, match assoc (pv_code (snd kv)) tbl with
+                          | Some r => r
+                          | None => {| rv_arr := false; rv_tgts := [pv_code (snd kv)] |}
+                          end)) (c_props c).
+Definition merged_props (tbl : list (Z * rval)) (parts : list (Z * content)) : list (Z * rval) :=
+  match parts with
+  | [] => []
+  | p :: ps => fold_left (fun acc q => merge_refs acc (props_items tbl (snd q))) ps (props_items tbl (snd p))
+  end.
+
 (** which kinds of operation a property compares *)
 Record proj := { p_writes : bool; p_changes : bool; p_entities : bool; p_get : bool; p_raw : bool }.
 Definition proj_c02 := {| p_writes := true; p_changes := true; p_entities := false; p_get := false; p_raw := false |}.
@@ -129,10 +143,10 @@ Definition agree_op (db : bool) (pr : proj) (st : store) (o : sop) : bool :=
     negb (p_changes pr) ||
     (let '(out, next) := changes_rev (get_ds st ds) since limit in
      oents_eqb (map entry_oent out) o_ents && Z.eqb next o_next)
-  | SGetM id scope o_refs =>
+  | SGetM id scope o_refs tbl o_props =>
     negb (p_get pr) ||
     (let '(parts, _) := entity_at st id (now_of st) scope in
-     kvlist_eqb rval_eqb (merged_refs parts) o_refs)
+     kvlist_eqb rval_eqb (merged_refs parts) o_refs && kvlist_eqb rval_eqb (merged_props tbl parts) o_props)
   | SRaw fam o_keys =>
     (* the real keys decode with the modelled layout, re-encode to themselves and come out of Badger in
        the order of their FIELD values (Proofs/KeysProofs.enc_order says that is the bytewise order) *)
@@ -204,13 +218,14 @@ Definition spec_op_ok (pr : proj) (s : sstate) (o : sop) : bool :=
       else match cur with [] => true | _ => false end
     end
   | SRaw _ _ => true
-  | SGetM id scope o_refs =>
+  | SGetM id scope o_refs tbl o_props =>
     negb (p_get pr) ||
     (let cur := flat_map (fun (p : Z * feed) =>
                    if in_scope scope (fst p) then
                      match current_of (snd p) id with Some c => [(fst p, c)] | None => [] end
                    else []) s in
-     kvlist_eqb rval_eqb (merged_refs (filter (fun p => negb (c_del (snd p))) cur)) o_refs)
+     let live := filter (fun p => negb (c_del (snd p))) cur in
+     kvlist_eqb rval_eqb (merged_refs live) o_refs && kvlist_eqb rval_eqb (merged_props tbl live) o_props)
   | SRev ds since limit o_ents o_next =>
     negb (p_changes pr) ||
     (let '(out, next) := spec_changes_rev (sget s ds) since limit in
